@@ -1048,6 +1048,12 @@ def _decorate_with_invariants(func: CallableT, is_init: bool) -> CallableT:
                 _IN_PROGRESS.set(in_progress)
 
             id_instance = id(instance)
+            if id_instance in in_progress:
+                # This constructor was called from the constructor of a derived class (``super().__init__(...)``)
+                # or from another operation on the instance which is still in progress: the object is not yet
+                # fully constructed, so the invariants are checked by the outermost constructor only.
+                return func(*args, **kwargs)
+
             in_progress.add(id_instance)
 
             # ExitStack is not used here due to performance.
